@@ -114,8 +114,8 @@ variants of Gen/Buf.lean (`ensureGrowOnly`, `moveToRewindReversed`, `extendStart
 on the embedding `toS` of this file's lighter record (glyph id + cluster) and read back with `ofS`.
 LIST-ASSUMPTION: that these primitives act on the logical sequence `out[0..out_len) ++ info[idx..len)` like
 list operations is proved there for the repaired variants (Lemmas/BufZipper.lean: `moveTo_spec`,
-`nextGlyph_spec`, `replaceGlyph_spec`, `outputGlyph_spec`, `copyGlyph_spec`, `sync_spec`) and carried over
-to this record in Lemmas/Morx.lean (`*_zipper`); with the old variants (D5/D6) it is false. -/
+`nextGlyph_spec`, `replaceGlyph_spec`, `outputGlyph_spec`, `copyGlyph_spec`, `sync_spec`) and used for the
+insertion block in Props/C17.lean (`C17_inplace_zipper_partial`); with the old variants (D5/D6) it is false. -/
 
 def toInfo (g : G) : RbModel.Info := { gid := g.gid, cluster := g.cl }
 def ofInfo (x : RbModel.Info) : G := ⟨x.gid, x.cluster⟩
